@@ -732,3 +732,35 @@ def m_text_size(ex, f, a):
     if op in ('sub',): return a[0] - a[1]
     if op == 'of': return ex.W.strlen(ex, ex.deref(a[0]))
     return a[0]
+
+# ----------------------------------------------------------------------------- rowan GreenNodeBuilder as an event recorder
+class Builder:
+    def __init__(s): s.ops = []; s.depth = 0; s.roots = 0
+@pattern(r'(^|::)GreenNodeBuilder::(new|start_node|token|finish_node|finish|checkpoint|start_node_at)$', 'g')
+def m_green_builder(ex, f, a):
+    op = mt.strip_generics(f).rsplit('::', 1)[1]
+    if op == 'new': return Builder()
+    b = ex.deref(a[0]) if isinstance(a[0], Ref) else a[0]
+    if op == 'start_node':
+        k = a[1]; k = k.fields[0] if isinstance(k, Agg) else k
+        b.ops.append(('start', ex.disc(k) if isinstance(k, (Agg, LazyEnum)) else k))
+        if b.depth == 0:
+            b.roots += 1
+            if b.roots > 1: raise Panic('rowan: second root node')
+        b.depth += 1; return UNIT
+    if op == 'token':
+        if b.depth == 0: raise Panic('rowan: token outside of any node')
+        k = a[1]; k = k.fields[0] if isinstance(k, Agg) else k
+        b.ops.append(('token', k, a[2])); return UNIT
+    if op == 'finish_node':
+        if b.depth == 0: raise Panic('rowan: finish_node with an empty stack')
+        b.depth -= 1; b.ops.append(('finish',)); return UNIT
+    if op == 'finish':
+        if b.depth != 0 or b.roots != 1: raise Panic('rowan: finish with %d open nodes and %d roots' % (b.depth, b.roots))
+        return b
+    raise Unsupported('rowan builder op ' + op)
+@pattern(r'^<(rowan::)?SyntaxKind as From<MySyntaxKind>>::from$|^<MySyntaxKind as Into<(rowan::)?SyntaxKind>>::into$')
+def m_syntax_kind_from(ex, f, a):
+    ref = ex.W.resolve('<SyntaxKind as From<MySyntaxKind>>::from', 'parser')
+    if ref is not None: return ex.run_body(ref, [a[0]])
+    return Agg('SyntaxKind', 0, [ex.disc(a[0])])
